@@ -31,6 +31,26 @@ def camel(name: str) -> str:
     return "".join(p.capitalize() for p in name.strip("_").split("_"))
 
 
+class _LeafTable(dict):
+    """adapter leaves by class qual; a class that moved to another module is found under its reference qual as well"""
+
+    def _key(self, k):
+        if dict.__contains__(self, k) or ":" not in k:
+            return k
+        name = k.split(":")[-1]
+        hits = [q for q in dict.keys(self) if q.split(":")[-1] == name]
+        return hits[0] if len(hits) == 1 else k
+
+    def __getitem__(self, k):
+        return dict.__getitem__(self, self._key(k))
+
+    def get(self, k, default=None):
+        return dict.get(self, self._key(k), default)
+
+    def __contains__(self, k):
+        return dict.__contains__(self, self._key(k))
+
+
 @dataclass
 class Leaf:
     ci: ClassInfo
@@ -43,6 +63,7 @@ class Leaf:
     has_store: bool
     dep_attrs: Dict[str, Optional[ClassInfo]] = field(default_factory=dict)  # self.<attr> -> adapter class
     init_params: List[str] = field(default_factory=list)
+    init_defaults: set = field(default_factory=set)
     init_param_cls: Dict[str, Optional[ClassInfo]] = field(default_factory=dict)
     param_attr: Dict[str, str] = field(default_factory=dict)  # init param -> attribute it is stored in
 
@@ -87,7 +108,7 @@ class Aoef:
         self.index = ctx.index
         self.models = ctx.models
         self.summ = ctx.summ
-        self.leaves: Dict[str, Leaf] = {}
+        self.leaves = _LeafTable()
         self.collections: List[Collection] = []
         self.table_rows: List[Tuple[str, Optional[ClassInfo], Optional[ClassInfo], ast.AST]] = []
         self._discover_leaves()
@@ -106,13 +127,13 @@ class Aoef:
             if not m.name.startswith(AOEF_PKG + "."):
                 continue
             for ci in m.classes.values():
-                if ci.qual == DATA_ADAPTER:
+                if ix.canonical_qual("class", ci.qual) == DATA_ADAPTER:
                     continue
                 base_sub = None
                 for b in ci.base_exprs:
                     if isinstance(b, ast.Subscript):
                         s = ix.resolve_expr(m, b.value)
-                        if s is not None and s.qual == DATA_ADAPTER:
+                        if s is not None and ix.canonical_qual("class", s.qual) == DATA_ADAPTER:
                             base_sub = b
                 if base_sub is not None:
                     args = base_sub.slice.elts if isinstance(base_sub.slice, ast.Tuple) else [base_sub.slice]
@@ -145,10 +166,11 @@ class Aoef:
             raise AnchorMissing(f"{ci.qual} lacks {wname}/{rname}", site=f"{ci.module.relpath}:{ci.node.lineno}")
         leaf = Leaf(ci, D, O, wname, rname, w, r, has_store)
         found = ci.find_method("__init__")
-        if found and found[0].qual != DATA_ADAPTER:
+        if found and self.index.canonical_qual("class", found[0].qual) != DATA_ADAPTER:
             c, init = found
             s = self.summ.of_node(c.module, init, f"{c.qual}.__init__", c)
             leaf.init_params = [p for p in s.params if p != "self"]
+            leaf.init_defaults = set(s.defaults)  # parameters that may be left out (an option with a default)
             for p in leaf.init_params:
                 cls = None
                 if p in s.annotations:
